@@ -47,6 +47,7 @@ class FaultCtl:
         self.fired = []          # (site, nth) fired in the current op
         self.total_fired = Counter()
         self.total_cross = Counter()
+        self.suspended = False
 
     def begin_op(self, faults):
         self.counts = Counter()
@@ -57,6 +58,8 @@ class FaultCtl:
         self.armed = set()
 
     def cross(self, site):
+        if self.suspended:
+            return
         n = self.counts[site]
         self.counts[site] = n + 1
         self.total_cross[site] += 1
@@ -68,6 +71,8 @@ class FaultCtl:
 
     def would_fire(self, site):
         """For the DB progress handler: count a crossing, report whether to abort."""
+        if self.suspended:
+            return False
         n = self.counts[site]
         self.counts[site] = n + 1
         self.total_cross[site] += 1
@@ -163,8 +168,8 @@ class SimProcessor(Processor):
         else:
             it = source.engine.execute(source)
             out = it.materialized() if (materialize_as is not None or w.config.get("hook_mode") != "streaming") else it
-        rec["completed"] = True
         w.fault.cross("hook_after")
+        rec["completed"] = True
         return out
 
     def materialize(self, target, name):
@@ -176,8 +181,8 @@ class SimProcessor(Processor):
             out = w.table_from_rows(name, target.columns, rows)
         else:
             out = target.engine.execute(target).materialized()
-        rec["completed"] = True
         w.fault.cross("hook_after")
+        rec["completed"] = True
         return out
 
 
@@ -341,6 +346,13 @@ class World:
         return rel
 
     def leaf_content_hash(self, lid):
+        self.fault.suspended = True
+        try:
+            return self._leaf_content_hash(lid)
+        finally:
+            self.fault.suspended = False
+
+    def _leaf_content_hash(self, lid):
         info = self.leaves[lid]
         p = info["payload"]
         h = hashlib.sha1()
